@@ -394,3 +394,66 @@ contract('AdbDevice.pull',
                   RELEASED, MONO],
          raises=op_raises(FS_FAIL + [('OSError', [RELEASED, ('C13', 'was-available', 'old(self._available)')])]),
          doc='path checks first, destination opened wb, _pull, and _clse on every exit of _pull (try/finally)')
+
+
+# ---------------------------------------------------------------------------------------------------------------------
+# push  (C07, C10)
+
+NS = 'G.nsync[%s]' % LID
+NS0 = 'old(G.nsync)[%s]' % LID
+PUSH_MOD = IO_MOD + RD_MOD + FS_MOD + ['G.fi', 'G.spos', 'G.sync_out', 'G.sync_flushed', 'G.nsync', 'G.pushed', 'G.fpos', 'G.cb_bytes']
+SENT_ALL = 'G.pushed[{0}] == old(G.pushed)[{0}] + G.fin[old(G.fpos):]'.format(LID)
+PUSH_PRE = STREAM_OK + FS_INV_S + [RINV, D_MAXDATA, D_PATH, '{0}._maxdata == self._maxdata'.format(FS), '{0}.send_idx == 0'.format(FS),
+                                   'st_mode >= 0 and st_mode < 2**32', 'mtime >= 0 and mtime < 2**32', 'G.now >= 0 and G.now < 2**32 - 1',
+                                   'G.fpos >= 0 and G.fpos <= len(G.fin)', 'G.sync_flushed[{0}] == G.sync_out[{0}]'.format(LID), NOLOCK]
+
+contract('AdbDevice._push',
+         real=dev('_push'),
+         params={'self': 'obj:AdbDevice', 'stream': 'opaque:FileR', 'device_path': 'str', 'st_mode': 'int', 'mtime': 'int',
+                 'progress_callback': 'opt[opaque:ProgressCallback]', 'adb_info': 'obj:AdbInfo', 'filesync_info': 'obj:FSInfo'},
+         variants=[dict(FSREAD_VARIANTS[0], stream='opaque:FileR'), dict(FSREAD_VARIANTS[0], stream='opaque:Mem')],
+         locals={'total_bytes': 'int'},
+         props=['C07', 'C10', 'C04', 'C12'],
+         escape_props=['C07'],
+         requires=PUSH_PRE,
+         modifies=PUSH_MOD,
+         ensures=[('C07', 'DATA-chunks-concatenate-to-exactly-the-source-content', SENT_ALL + ' and G.fpos == len(G.fin)'),
+                  ('C07', 'one-SEND-then-DATA-records-then-one-DONE', '{0} >= {1} + 2'.format(NS, NS0)),
+                  ('C07', 'everything-was-flushed-to-the-device', '{0}.send_idx == 0 and G.sync_flushed[{1}] == G.sync_out[{1}]'.format(FS, LID)),
+                  ('C07,C10', 'returns-normally-only-after-the-devices-sync-OKAY', 'FS_id({0}, G.fi[{0}] - 1) == OKAY and G.fi[{0}] >= {1} + 1'.format(LID, F1)),
+                  ('C07', 'callback-sees-byte-counts-summing-to-the-size',
+                   'implies(not isnone(progress_callback), G.cb_bytes - old(G.cb_bytes) == len(G.fin) - old(G.fpos))'),
+                  ('C07', 'no-callback-no-calls', 'implies(isnone(progress_callback), G.cb_bytes == old(G.cb_bytes))'),
+                  RELEASED, MONO],
+         raises=dict(exc_all([RELEASED, MONO]),
+                     **dict(FS_RD_FAIL + [('PushFailedError', [('C10', 'device-answered-FAIL-at-the-status-point', 'FS_id({0}, G.fi[{0}] - 1) == FAIL'.format(LID)),
+                                                               ('C10', 'carries-the-devices-message', 'same(exc.payload, FS_data({0}, G.fi[{0}] - 1))'.format(LID)),
+                                                               RELEASED, MONO]),
+                                          ('OSError', [RELEASED, MONO])])),
+         call_asserts={'AdbDevice._filesync_send': [
+             ('C07', 'first-record-is-SEND-path,mode',
+              'implies({0} == {1}, _arg_command_id == SEND and same(_arg_data, utf8(device_path) + b"," + decimal(st_mode)) and isnone(_arg_size))'.format(NS, NS0)),
+             ('C07', 'SEND-only-first', 'implies(_arg_command_id == SEND, {0} == {1})'.format(NS, NS0)),
+             ('C07', 'DATA-chunks-are-1..64KiB-of-consecutive-source-bytes',
+              'implies({0} > {1} and _arg_command_id != DONE, _arg_command_id == DATA and len(_arg_data) >= 1 and len(_arg_data) <= 65536 '
+              'and same(_arg_data, G.fin[G.fpos - len(_arg_data):G.fpos]) and isnone(_arg_size))'.format(NS, NS0)),
+             ('C07', 'DONE-after-the-whole-source-carrying-mtime-or-the-current-time',
+              'implies(_arg_command_id == DONE, G.fpos == len(G.fin) and len(_arg_data) == 0 and not isnone(_arg_size) and {0} > {1} and '
+              'ite(_0mtime != 0, val(_arg_size) == _0mtime, val(_arg_size) <= G.now and val(_arg_size) > old(G.now) - 1))'.format(NS, NS0))]},
+         loops={0: dict(invariant=[
+             ('C07', 'G.pushed[{0}] == old(G.pushed)[{0}] + G.fin[old(G.fpos):G.fpos] and G.fpos >= old(G.fpos) and G.fpos <= len(G.fin)'.format(LID)),
+             ('C07', '{0} >= {1} + 1'.format(NS, NS0)),
+             ('C07', 'implies(not isnone(progress_callback), G.cb_bytes - old(G.cb_bytes) == G.fpos - old(G.fpos))'),
+             ('C07', 'implies(isnone(progress_callback), G.cb_bytes == old(G.cb_bytes))'),
+             ('C07', 'G.sync_flushed[{1}] + {0}.send_buffer[:{0}.send_idx] == G.sync_out[{1}]'.format(FS, LID)),
+             ('C07,C04', FS_INV_S[0] + ' and ' + FS_INV_S[1] + ' and {0}._maxdata == self._maxdata'.format(FS)),
+             ('C07,C04', RINV), ('C07', 'mtime == _0mtime and G.fi == old(G.fi)'),
+             ('C07,C04,C12', UNLOCKED), ('C07,C04', MONO + ' and G.rpos >= 0'),
+         ]),
+             1: dict(invariant=[('C07,C10', SENT_ALL + ' and G.fpos == len(G.fin)'), ('C07', '{0} >= {1} + 2'.format(NS, NS0)),
+                                ('C07', 'implies(not isnone(progress_callback), G.cb_bytes - old(G.cb_bytes) == len(G.fin) - old(G.fpos))'),
+                                ('C07', 'implies(isnone(progress_callback), G.cb_bytes == old(G.cb_bytes))'),
+                                ('C07', 'G.sync_flushed[{1}] + {0}.send_buffer[:{0}.send_idx] == G.sync_out[{1}]'.format(FS, LID)),
+                                ('C07,C04', FS_INV_S[0] + ' and ' + FS_INV_S[1]), ('C07,C04', RINV), ('C07,C10', 'G.fi[{0}] >= {1}'.format(LID, F1)),
+                                ('C07,C04,C12', UNLOCKED), ('C07,C04', MONO + ' and G.rpos >= 0')])},
+         doc='SEND path,mode; DATA chunks of at most max_chunk_size bytes; DONE mtime; then the status record: OKAY -> return, FAIL -> PushFailedError')
